@@ -179,6 +179,30 @@ pub fn run(ctx: &Ctx, rep: &mut Reporter) -> Json {
                     panic_violation(rep, case_idx, "panic", &p, Json::obj());
                 }
             }
+            // the same text saved as UTF-16 with a byte order mark: other bytes, another file
+            if base.is_ascii() && !base.is_empty() {
+                let r = guarded(|| {
+                    let once = check_one(&base, "single copy", rep, case_idx, &mut log);
+                    for le in [true, false] {
+                        let mut v: Vec<u8> = if le { vec![0xFF, 0xFE] } else { vec![0xFE, 0xFF] };
+                        for b in base.iter().take(40_000) {
+                            if le {
+                                v.extend_from_slice(&[*b, 0]);
+                            } else {
+                                v.extend_from_slice(&[0, *b]);
+                            }
+                        }
+                        let u = check_one(&v, "re-encoded as UTF-16", rep, case_idx, &mut log);
+                        rep.count("inputs_re_encoded_as_utf16", 1);
+                        if u == once {
+                            rep.violation(case_idx, "uuid-oracle", "a file and its UTF-16 re-encoding have the same UUID", Json::obj());
+                        }
+                    }
+                });
+                if let Err(p) = r {
+                    panic_violation(rep, case_idx, "panic", &p, Json::obj());
+                }
+            }
             // buffers read in whole blocks: the file followed by the fill of its last 512-byte
             // or 4096-byte block (NUL, blank, ^Z) — the identifier covers the fill
             {
